@@ -198,6 +198,20 @@ def check(ctx, rep):
                         if s['rv']['k'] == 'agg' and s['d']['l'] == 0 and s['rv']['variant'] == 'None' and bb in r and bb not in ro:
                             none_ok = True
         key = 'value|%s->%s' % (argt.rsplit('::', 1)[-1], rett.rsplit('::', 1)[-1])
+        if calls == ['core::option::Option::map_or'] and rett == 'crux_kv::value::Value':
+            # `value.map_or(Value::None, Value::Bytes)`: the same re-tagging by the combinator — default = the None variant, function = the
+            # constructor of the payload variant, applied to the parameter itself
+            t_ = next(t for bb, t in f.calls())
+            recv = origins(f, t_['args'][0])
+            dflt = origins(f, t_['args'][1])
+            fn_ = t_['args'][2]
+            same = bool(recv) and all(o.kind == 'arg' and o.n == 1 and not o.suffix for o in recv) and \
+                bool(dflt) and all(o.kind == 'agg' and o.stmt['rv'].get('variant') == 'None' and path_matches(o.stmt['rv'].get('adt'), 'crux_kv::value::Value') for o in dflt) and \
+                fn_.get('o') == 'const' and norm(fn_.get('fn') or '') == 'crux_kv::value::Value::Bytes' and \
+                all(o.kind == 'call' and o.term is t_ for o in origins(f, {'l': 0, 'p': []}))
+            rep.expect('R17.c', same, key, 'None <-> None, payload moved (map_or(Value::None, Value::Bytes))',
+                       'conversion %s -> %s is no longer a pure re-tagging (calls %s)' % (argt, rett, calls))
+            continue
         rep.expect('R17.c', not calls and variants == want and payload_moved and none_ok, key,
                    'None <-> None, payload moved, no call', 'conversion %s -> %s is no longer a pure re-tagging (calls %s, builds %s)' % (argt, rett, calls, variants))
     # R17.d: "exactly one operation" also rests on the command primitives underneath: a request / notification made through the command API
